@@ -391,7 +391,8 @@ def run_case(case):
             # whether to call `bfg9000 regenerate --lazy`) or, for every other fault, that
             # command typed by hand - it must not report success over broken files either
             follow_n[0] += 1
-            cli_first = follow_n[0] % 2 == 0 and os.path.isdir(w.bld)
+            cli_first = (follow_n[0] % 2 == 0 or st['primary'] in ('empty', 'partial')) \
+                and os.path.isdir(w.bld)
             for attempt in (1, 2):
                 if attempt == 1 and cli_first:
                     proj.settle()
